@@ -24,6 +24,9 @@ void TwoPointsNumericalDerivative::updateDerivatives(const ParameterList& parame
         der1_[i] = log(-1);
         der2_[i] = log(-1);
       }
+      // Analytical derivatives of the wrapped function, if any, must not stay disabled:
+      if (function1_)
+        function1_->enableFirstOrderDerivatives(computeD1_);
       return;
     }
 
